@@ -71,6 +71,16 @@ func rewriteFuncLits(n ast.Node) {
 		if _, ok := x.(*ast.BlockStmt); ok {
 			return false
 		}
+		// comparators handed to package sort stay free of yields: how often they are
+		// called depends on the initial order of the data, which may come from a map
+		// iteration (random), and would make the step count differ between runs
+		if c, ok := x.(*ast.CallExpr); ok {
+			if se, ok := c.Fun.(*ast.SelectorExpr); ok {
+				if id, ok := se.X.(*ast.Ident); ok && id.Name == "sort" {
+					return false
+				}
+			}
+		}
 		return true
 	})
 }
